@@ -513,6 +513,9 @@ def drive(bindir, name, scs, wd, reset_ev, end_ev, timeout=1200, extra_args=None
     while start < len(scs):
         rc, out, err = run_bin(bindir, name, [spath, tpath, "--from", start, "--append"] + (extra_args or []),
                                timeout=timeout, env_extra=env_extra)
+        for line in (err or "").splitlines():
+            if line.startswith("NOTE "):
+                log(line)
         if rc == 0:
             break
         recs = read_ndjson(tpath) if os.path.exists(tpath) else []
